@@ -24,6 +24,7 @@ def run(ctx):
     ctx.run("C01.FIFO", "R-DUAL", par.c01_fifo)
     ctx.run("C16.UNORDERED", "R-ORDER", par.c16_unordered)
     ctx.run("C16.STALE", "R-LOCK/R-ORDER", par.c04_callid)
+    ctx.run("C04.CALLBACK-TOTAL", "R-ORDER", par.c04_callback_total)
     ctx.run("C16.EXIT", "R-ORDER", par.c16_exit)
     ctx.run("C16.SUPPORT", "R-ORDER", par.c16_support)
     ctx.run("C04.ONCE", "R-ORDER/R-LOCK", par.c04_once)
